@@ -456,8 +456,8 @@ func init() {
 	register(&Property{
 		ID: "C17",
 		Explanation: "Decides structural necessary conditions of 'generation completes and the generated Go code builds' on the template trees (parsed with text/template/parse, never executed, so option branches no shipped grammar instantiates are covered): TMPLGUARD: in parser.go/parser_tables.go/stream.go templates, node-type identifiers (NodeType/NodeFlags via nodeTypeRef…, node_id) appear only under guards implying .Parser.Types. TMPL(threshold): a numeric threshold tested by two Go templates is tested identically (helper emitted iff called). " +
-			"TMPLNAMES: every {{template}} resolves and every pipeline function is registered. ERRGUARD: a return taken because error E is non-nil returns E (gen.Generate and the compiler packages). Not decided: the option x feature space as a whole; Go type-correctness of un-instantiated branches. PAIR(intern): the idx, ok := m[k]; if !ok { idx = len(list); append } idiom records idx under k (no duplicate node types, which would be redeclared constants in listener.go). AGREE(session): (*Grammar).NeedsSession, evaluated for every assignment of the options that guard members of the template's session struct, is true exactly when lookaheads exist and a member exists (a use site never names a member that parse() declared as a local). AGREE(file-deps): on every path of gen.(*language).templates (all option combinations) each generated package that a selected group of Go files imports ({{pkg \"selector\"}}, token) is written by a selected group. AGREE(call-arity): every call of a TokenStream method whose first parameter exists only under an option guard (next: ctx under Cancellable and CancellableFetch) adds the argument under the same guard (template-tree sibling check: the text `.next(` is followed by the matching {{if}}). TMPL(def-use): for every helper function defined in go_parser.go.tmpl, the guard formula of each call site (and/or/not over the atomic template conditions, single-assignment template variables substituted, customisation switches taken as enabled) implies the guard formula of a definition, checked for every truth assignment. PAIR(seen-set): every once-only guard `if !seen[k]` records k in its branch. GUARD(inline-unique): canInlineRules refuses to inline when two lexer rules share a token. GUARD(synthetic-name-free): the synthetic category TokenSet is added only when that name is free among the declared categories and among the node types (both become declarations of the generated package). ONCE(go-decl): every emission of a Go short variable declaration inside goParserAction's reference loop is guarded by a failed seen-set lookup whose key is recorded in the same block (an action that mentions a symbol twice still builds). DEDUP(marker-states): minimize de-duplicates the remapped state list of a marker against a seen-set (the renumbering is not monotone; a repeated state is a duplicate key in the generated marker map). TMPL(field-use): every use of an option-guarded field of Lexer, TokenStream or Parser in go_lexer/go_stream/go_parser templates is emitted only for option combinations for which the field is declared (guard formulas, all truth assignments). TMPL(node-id): the declaration of node type constants in listener.go and every reference to them from generated Go code print the identifier through node_id (nodePrefix + name), so a non-empty nodePrefix still builds. GUARD(comment-single-line): the constant text of a pattern is tested for line breaks before it becomes the token's line comment (otherwise the generated token enum gains a stray constant and the following token values shift). SENTINEL(remap-absent): lookups in ActionVars.Remap whose key is not known to be present use the comma-ok form (an absent optional symbol is -1/nil, never stack slot 0 with a foreign type). PAIR(pop-propagation): popRule hands both the argRefs and the names of a finished nested group to the enclosing rule (an accepted grammar never fails in generation with `invalid reference`). TMPL(ctx-arity): for every `name({{if G}}ctx, {{end}}...)` in go_parser/go_stream/go_lexer templates and every option assignment under which the call is emitted, G equals the guard of the ctx parameter of the function called (arity) and implies the ctx parameter of the enclosing function (scope). DTX(alias-elision): the condition governing the write of an explicit import alias in ExtractGoImports, evaluated by a string-predicate evaluator over the SSA on a table of (path, alias) pairs whose alias is not the last path segment, is true for each (the alias may only be elided when it is the default name).",
-		Rules: []string{"TMPLGUARD", "TMPL(threshold)", "TMPLNAMES", "ERRGUARD", "PAIR(intern)", "AGREE(session)", "AGREE(file-deps)", "AGREE(call-arity)", "TMPL(def-use)", "PAIR(seen-set)", "GUARD(inline-unique)", "GUARD(synthetic-name-free)", "ONCE(go-decl)", "DEDUP(marker-states)", "TMPL(field-use)", "TMPL(node-id)", "GUARD(comment-single-line)", "SENTINEL(remap-absent)", "PAIR(pop-propagation)", "TMPL(ctx-arity)", "DTX(alias-elision)"},
+			"TMPLNAMES: every {{template}} resolves and every pipeline function is registered. ERRGUARD: a return taken because error E is non-nil returns E (gen.Generate and the compiler packages). Not decided: the option x feature space as a whole; Go type-correctness of un-instantiated branches. PAIR(intern): the idx, ok := m[k]; if !ok { idx = len(list); append } idiom records idx under k (no duplicate node types, which would be redeclared constants in listener.go). AGREE(session): (*Grammar).NeedsSession, evaluated for every assignment of the options that guard members of the template's session struct, is true exactly when lookaheads exist and a member exists (a use site never names a member that parse() declared as a local). AGREE(file-deps): on every path of gen.(*language).templates (all option combinations) each generated package that a selected group of Go files imports ({{pkg \"selector\"}}, token) is written by a selected group. AGREE(call-arity): every call of a TokenStream method whose first parameter exists only under an option guard (next: ctx under Cancellable and CancellableFetch) adds the argument under the same guard (template-tree sibling check: the text `.next(` is followed by the matching {{if}}). TMPL(def-use): for every helper function defined in go_parser.go.tmpl, the guard formula of each call site (and/or/not over the atomic template conditions, single-assignment template variables substituted, customisation switches taken as enabled) implies the guard formula of a definition, checked for every truth assignment. PAIR(seen-set): every once-only guard `if !seen[k]` records k in its branch. GUARD(inline-unique): canInlineRules refuses to inline when two lexer rules share a token. GUARD(synthetic-name-free): the synthetic category TokenSet is added only when that name is free among the declared categories and among the node types (both become declarations of the generated package). ONCE(go-decl): every emission of a Go short variable declaration inside goParserAction's reference loop is guarded by a failed seen-set lookup whose key is recorded in the same block (an action that mentions a symbol twice still builds). DEDUP(marker-states): minimize de-duplicates the remapped state list of a marker against a seen-set (the renumbering is not monotone; a repeated state is a duplicate key in the generated marker map). TMPL(field-use): every use of an option-guarded field of Lexer, TokenStream or Parser in go_lexer/go_stream/go_parser templates is emitted only for option combinations for which the field is declared (guard formulas, all truth assignments). TMPL(node-id): the declaration of node type constants in listener.go and every reference to them from generated Go code print the identifier through node_id (nodePrefix + name), so a non-empty nodePrefix still builds. GUARD(comment-single-line): the constant text of a pattern is tested for line breaks before it becomes the token's line comment (otherwise the generated token enum gains a stray constant and the following token values shift). SENTINEL(remap-absent): lookups in ActionVars.Remap whose key is not known to be present use the comma-ok form (an absent optional symbol is -1/nil, never stack slot 0 with a foreign type). PAIR(pop-propagation): popRule hands both the argRefs and the names of a finished nested group to the enclosing rule (an accepted grammar never fails in generation with `invalid reference`). TMPL(ctx-arity): for every `name({{if G}}ctx, {{end}}...)` in go_parser/go_stream/go_lexer templates and every option assignment under which the call is emitted, G equals the guard of the ctx parameter of the function called (arity) and implies the ctx parameter of the enclosing function (scope). GUARD(alias-elision): the backward slice of the conditions under which ExtractGoImports skips the write of an explicit import alias contains the path separator (a \"/\" constant or path.Base): a decision that the alias is the last path segment has to locate the segment boundary (necessary condition; a test on path and alias alone also elides \"path/filepath as path\").",
+		Rules: []string{"TMPLGUARD", "TMPL(threshold)", "TMPLNAMES", "ERRGUARD", "PAIR(intern)", "AGREE(session)", "AGREE(file-deps)", "AGREE(call-arity)", "TMPL(def-use)", "PAIR(seen-set)", "GUARD(inline-unique)", "GUARD(synthetic-name-free)", "ONCE(go-decl)", "DEDUP(marker-states)", "TMPL(field-use)", "TMPL(node-id)", "GUARD(comment-single-line)", "SENTINEL(remap-absent)", "PAIR(pop-propagation)", "TMPL(ctx-arity)", "GUARD(alias-elision)"},
 		Run: func(c *Ctx) {
 			ruleTMPLCTXARITY(c)
 			ruleALIASELISION(c)
